@@ -347,7 +347,11 @@ func c03Canon(src string) ([]string, error) {
 						out = append(out, fmt.Sprintf("(interface %s %s %s)", s.Name.Name, tps(s.TypeParams), m))
 					}
 				case *ast.ValueSpec:
-					out = append(out, fmt.Sprintf("(var %s %s)", s.Names[0].Name, ty(s.Type)))
+					kw := "var"
+					if x.Tok == token.CONST {
+						kw = "const" // the documentation promises a package VARIABLE
+					}
+					out = append(out, fmt.Sprintf("(%s %s %s)", kw, s.Names[0].Name, ty(s.Type)))
 				}
 			}
 		}
@@ -472,6 +476,8 @@ func (s *c03Set) client() (string, []string) {
 		}
 	}
 	for _, v := range s.Vars {
+		// used as a variable: address taken, assigned through the pointer, read again
+		fmt.Fprintf(&b, "\t{\n\t\tp := &%s\n\t\told := *p\n\t\t*p = old\n\t\t%s = *p\n\t}\n", v.Name, v.Name)
 		fmt.Fprintf(&b, "\tfmt.Println(%q, %s)\n", v.Name, v.Name)
 		exp = append(exp, v.Name+" "+prnLit[v.Ty.Fo])
 	}
